@@ -507,6 +507,12 @@ class Canon:
             for e in a[1]:
                 out += self.linsum(e)
             return out
+        if a[0] == 'accum' and all(en[0] in ('append', 'extend') for en in a[2]):
+            # the sum of a list does not depend on the order in which its elements were appended
+            out = self.linsum(a[1])
+            for op, idx, val, ch in a[2]:
+                out += self.linchain(ch, val) if op == 'append' else self.linchain(ch, CALL(S('lpSum'), [val]))
+            return out
         arr = model_attr(a)
         if arr in self.var_arrays:
             letter, sort = self.arr_letter[arr]
